@@ -77,7 +77,7 @@ def _pool_inv(c, pool, heap):
 
 
 _POOL_GHOSTS = ("q_items", "q_puts", "threads_started", "thread_start_failures")
-_POOL_FRESH = ("_logger", "_done_event", "_FutureResult__callback", "_FutureResult__extra", "_EventData__event", "_EventData__data",
+_POOL_FRESH = ("_logger", "_done_event", "_FutureResult__callback", "_FutureResult__extra", "_FutureResult__lock", "_EventData__event", "_EventData__data",
                "_EventData__exception", "_flag", "name", "daemon", "args")
 
 
